@@ -693,6 +693,62 @@ def corpus_format(ctx):
                     eos = k["str"]
                 elif k is not None and "bytes" in k and "str" in str(k.get("ty", "")):
                     eos = bytes(k["bytes"]).decode("utf-8", "replace")      # a `&&str` constant
+    # ... and only a line *without* a feature column is a terminator: the token `EOS<TAB>feature`
+    # (a word spelled EOS) is an ordinary token. The branch taken when the comparison with the
+    # terminator holds must lie behind the `no second part` edge.
+    eq_calls = []
+    for b, t in rfa.calls():
+        ps = [strip_generics(x) for x in callee_paths(t)]
+        if any(x.endswith("::eq") or x.endswith("::ne") for x in ps):
+            ks = []
+            for a in t["args"]:
+                k = fmt.const_of(rfa, a)
+                if k is None:
+                    from r_codec import find_const
+                    k = find_const(rfa, a)
+                if k is not None and (k.get("str") == "EOS" or bytes(k.get("bytes") or b"") == b"EOS"):
+                    ks.append(k)
+            if ks:
+                eq_calls.append((b, t, any(x.endswith("::ne") for x in ps)))
+    second = nx[1] if len(nx) >= 2 else (once[0] if once else None)
+    if eq_calls and second is not None:
+        from mir import FnA as _FnA
+        none_edges = set()
+        for sb in sorted(rfa.live_blocks()):
+            st_ = rfa.term(sb)
+            if st_["k"] != "switch":
+                continue
+            o_ = rfa.origin(st_["op"])
+            if o_[0] == "rv" and o_[1]["k"] == "discr":
+                dpl = o_[1]["place"]
+                src_ = rfa.origin({"c": {"l": dpl["l"], "p": []}})
+                flds = [e for e in dpl["p"] if isinstance(e, dict) and e.get("o") == "(tuple)"]
+                if flds and len(dpl["p"]) == 1:
+                    # `match (a, b, c) { .. }`: the discriminant of one member of the tuple
+                    dd0 = rfa.single_def(dpl["l"])
+                    if dd0 and dd0[2] == "assign" and dd0[3]["k"] == "agg" and dd0[3].get("agg") == "tuple" \
+                            and flds[0]["f"] < len(dd0[3]["ops"]):
+                        src_ = rfa.origin(dd0[3]["ops"][flds[0]["f"]])
+                    else:
+                        src_ = ("?",)
+                elif dpl["p"]:
+                    src_ = ("?",)
+                if src_[0] == "call" and src_[1] == second[0]:
+                    arms_ = dict(zip(st_["vals"], st_["targets"]))
+                    none_edges.add((sb, arms_.get(0, st_["otherwise"])))
+        # what a terminator does: it closes the sentence (an Example is built). With the
+        # `no second part` edges cut, that must be unreachable. (The comparison itself may be
+        # evaluated on other paths too - the match is compiled arm by arm.)
+        cut = _FnA(rfa.fn, removed=none_edges)
+        closes = [b0 for b0, i0, s0 in rfa.stmts()
+                  if "rv" in s0 and s0["rv"]["k"] == "agg" and str(s0["rv"].get("adt", "")).endswith("corpus::Example")]
+        live_cut = cut.reachable(0)
+        okt = bool(none_edges) and bool(closes) and not any(b0 in live_cut for b0 in closes)
+        ctx.ob("FMT", "corpus|reader|terminator-has-no-feature", okt, fn_loc(crate, rp),
+               "a line is taken for the sentence terminator only when it has no second (feature) part"
+               if okt else
+               "the comparison with the terminator is made before (or without) testing that the line "
+               "has no feature part: a token whose surface is `EOS` ends the sentence and is lost")
     ctx.ob("FMT", "corpus|reader|terminator", eos == "EOS", fn_loc(crate, rp),
            "a sentence ends at a line equal to %r" % eos)
     # writers
